@@ -551,6 +551,7 @@ EXTRA_LABELS = {
     "mpsc.send.message_keeps_this_mailbox_alive": "C01 C07",
     "timeout.inner_log_extends": "C10",
     "framework.no_unexpected_panic": "C12 C15 C03 C01",
+    "framework.hook_panics_must_propagate": "C04 C05 C12",
     "handle_message.pre.unlocked@dyn": "C12",
     "spawn.lifecycle_gets_refs_mailbox": "C01 C02 C09",
     "spawn.lifecycle_gets_refs_control": "C06",
@@ -582,7 +583,8 @@ UNDECIDED_STAND_IN = {
     "C12": _DD, "C14": _DD, "C15": _DD,
     "C11": ["identity_and_liveness", "erased_handles", "sends_to_stopped"],
     "C16": ["erased_handles"], "C20": ["metrics_counts"],
-    "C05": ["lifecycle_basic", "run_err", "start_fail", "stop_err_on_kill", "kill_preempt"],
+    "C05": ["lifecycle_basic", "run_err", "start_fail", "stop_err_on_kill", "kill_preempt", "hook_panics"],
+    "C04": ["lifecycle_basic", "run_err", "start_fail", "stop_err_on_kill", "hook_panics"],
 }
 
 NOT_APPLICABLE = {
